@@ -17,7 +17,8 @@ PLANS = {
   'C03': [('w_bal', {'kind': 'heap'}, 1.0), ('w_bal', {'kind': 'aperture'}, 1.0)],
   'C04': [('w_bal', {'kind': 'heap'}, 1.0), ('w_bal', {'kind': 'aperture'}, 1.0), ('w_stack', {}, 0.5)],
   'C05': [('w_bal', {'kind': 'heap'}, 1.0), ('w_bal', {'kind': 'aperture'}, 1.0)],
-  'C06': [('w_bal', {'kind': 'aperture'}, 1.0), ('w_bal', {'kind': 'aperture', 'mode': 'steady'}, 0.5)],
+  'C06': [('w_bal', {'kind': 'aperture'}, 1.0), ('w_bal', {'kind': 'aperture', 'mode': 'steady'}, 0.5),
+          ('w_bal', {'kind': 'aperture', 'mode': 'jitter'}, 0.5)],
   'C09': [('w_stack', {'stack': 'thrift', 'focus': 'c09'}, 1.0), ('w_stack', {'stack': 'mux', 'focus': 'c09'}, 1.0),
           ('w_stack', {'stack': 'thrift'}, 0.5), ('w_stack', {'stack': 'mux'}, 0.5)],
   'C08': [('w_transport', {'stack': 'thrift'}, 1.0), ('w_transport', {'stack': 'mux'}, 1.0)],
@@ -29,7 +30,7 @@ PLANS = {
 # property -> (quick runs, thorough runs); both are also bounded by a wall budget
 RUNS = {
   'C01': (1500, 30000), 'C02': (1500, 30000), 'C12': (1500, 30000), 'C14': (1500, 30000),
-  'C03': (1500, 30000), 'C04': (1500, 30000), 'C05': (1500, 30000), 'C06': (1200, 20000),
+  'C03': (1500, 30000), 'C04': (1500, 30000), 'C05': (1500, 30000), 'C06': (900, 20000),
   'C08': (40, 1500), 'C15': (1200, 20000), 'C19': (1500, 30000), 'C16': (2000, 40000), 'C17': (2000, 40000), 'C09': (900, 20000), 'C18': (1200, 20000), 'C13': (1500, 30000), 'C11': (1500, 30000),
   'C07': (1200, 30000),
   'C10': (1500, 40000),
